@@ -16,6 +16,7 @@ package main
 
 import (
 	"context"
+	"crypto/sha1"
 	"encoding/json"
 	"errors"
 	"fmt"
@@ -499,26 +500,52 @@ func wireTerm(id int, dead string) string {
 }
 
 type translator struct {
-	out       []string
-	kinds     map[string]int
-	parked    map[int]bool
-	woken     map[int]bool
-	credits   int
-	pending   int // tid whose AcqPark label is still to be emitted, 0 = none
-	curLabel  string
-	curGot    string
-	awaitSt   bool
-	cntDead   int
-	uncDead   int
-	bornBad   map[int]bool
-	err       string
-	parks     int
-	cancels   int
+	digits   []uint64
+	out      []string
+	kinds    map[string]int
+	parked   map[int]bool
+	woken    map[int]bool
+	credits  int
+	pending  int // tid whose AcqPark label is still to be emitted, 0 = none
+	curLabel string
+	curK     [3]int
+	curFlag  bool
+	curGot   string
+	awaitSt  bool
+	cntDead  int
+	uncDead  int
+	bornBad  map[int]bool
+	err      string
+	parks    int
+	cancels  int
 }
 
-func (t *translator) emit(label string, size *int, got string) {
+// wireCode: 0 none, 1 DeadMade, 2 DeadDown, 3 CtxDead, 4 + id Real id
+func wireCode(term string) uint64 {
+	switch {
+	case term == "":
+		return 0
+	case term == "DeadMade":
+		return 1
+	case term == "DeadDown":
+		return 2
+	case term == "CtxDead":
+		return 3
+	}
+	var id int
+	fmt.Sscanf(term, "(Real %d)", &id)
+	return uint64(4 + id)
+}
+
+// emit records one step: readable Gallina text and the packed number
+// kind (4 bits), a (12), b (10), flag (1), size + 33 or 0 (7), returned wire (10)
+func (t *translator) emit(kind, a, b int, flag bool, label string, size *int, got string) {
 	k := strings.Fields(strings.Trim(label, "()"))[0]
 	t.kinds[k]++
+	d := uint64(kind) | uint64(a)<<4 | uint64(b)<<16
+	if flag {
+		d |= 1 << 26
+	}
 	switch {
 	case size == nil:
 		t.out = append(t.out, fmt.Sprintf("mk %s", label))
@@ -527,11 +554,19 @@ func (t *translator) emit(label string, size *int, got string) {
 	default:
 		t.out = append(t.out, fmt.Sprintf("mkg %s %s %s", label, obs.Z(int64(*size)), got))
 	}
+	if size != nil {
+		if *size < -32 || *size > 90 {
+			t.err = fmt.Sprintf("size %d cannot be encoded", *size)
+		}
+		d |= uint64(*size+33) << 27
+	}
+	d |= wireCode(got) << 34
+	t.digits = append(t.digits, d)
 }
 
 func (t *translator) flush() {
 	if t.pending != 0 {
-		t.emit(fmt.Sprintf("(AcqPark %d)", t.pending), nil, "")
+		t.emit(1, t.pending, 0, false, fmt.Sprintf("(AcqPark %d)", t.pending), nil, "")
 		t.parked[t.pending] = true
 		t.pending = 0
 	}
@@ -556,28 +591,31 @@ func translate(evs []rueidis.VerifEvent, bornBad map[int]bool) *translator {
 		switch e.Kind {
 		case evAcqEnter:
 			t.curLabel = fmt.Sprintf("(AcqEnter %d %s)", a, obs.Bool(b == 1))
+			t.curK, t.curFlag = [3]int{0, a, 0}, b == 1
 		case evAcqArm, evPopBad:
 		case evAcqWake:
 			if t.parked[a] {
-				t.emit(fmt.Sprintf("(Signal (Some %d%%nat))", a), nil, "")
+				t.emit(9, a, 0, false, fmt.Sprintf("(Signal (Some %d%%nat))", a), nil, "")
 				t.credits--
 				delete(t.parked, a)
 			}
 			delete(t.woken, a)
 			t.curLabel = fmt.Sprintf("(AcqWake %d)", a)
+			t.curK, t.curFlag = [3]int{2, a, 0}, false
 		case evMakeBad:
 			t.curLabel = fmt.Sprintf("(MakeBad %d %d)", a, b)
+			t.curK, t.curFlag = [3]int{4, a, b + 1}, false
 		case evAcqPark:
-			t.emit(t.curLabel, &b, "")
+			t.emit(t.curK[0], t.curK[1], t.curK[2], t.curFlag, t.curLabel, &b, "")
 			t.pending = a
 			t.parks++
 		case evAcqCtxDead:
-			t.emit(t.curLabel, &b, "CtxDead")
+			t.emit(t.curK[0], t.curK[1], t.curK[2], t.curFlag, t.curLabel, &b, "CtxDead")
 		case evAcqDown:
-			t.emit(t.curLabel, &b, "DeadDown")
+			t.emit(t.curK[0], t.curK[1], t.curK[2], t.curFlag, t.curLabel, &b, "DeadDown")
 			t.uncDead++
 		case evAcqMake:
-			t.emit(t.curLabel, &b, "")
+			t.emit(t.curK[0], t.curK[1], t.curK[2], t.curFlag, t.curLabel, &b, "")
 		case evPopOk:
 			t.curGot = fmt.Sprintf("(Real %d)", b)
 			t.awaitSt = true
@@ -587,17 +625,17 @@ func translate(evs []rueidis.VerifEvent, bornBad map[int]bool) *translator {
 				return t
 			}
 			t.awaitSt = false
-			t.emit(t.curLabel, &a, t.curGot)
+			t.emit(t.curK[0], t.curK[1], t.curK[2], t.curFlag, t.curLabel, &a, t.curGot)
 			t.curGot = ""
 		case evMakeOk:
 			if b == rueidis.VerifSharedDeadID {
-				t.emit(fmt.Sprintf("(MakeOk %d None false)", a), nil, "")
+				t.emit(3, a, 0, false, fmt.Sprintf("(MakeOk %d None false)", a), nil, "")
 				t.cntDead++
 			} else {
-				t.emit(fmt.Sprintf("(MakeOk %d (Some %d%%nat) %s)", a, b, obs.Bool(t.bornBad[b])), nil, "")
+				t.emit(3, a, b+1, t.bornBad[b], fmt.Sprintf("(MakeOk %d (Some %d%%nat) %s)", a, b, obs.Bool(t.bornBad[b])), nil, "")
 			}
 		case evAcqReturn:
-			t.emit(fmt.Sprintf("(AcqReturn %d)", a), nil, "")
+			t.emit(5, a, 0, false, fmt.Sprintf("(AcqReturn %d)", a), nil, "")
 		case evStoreIdle, evStoreDrop:
 			dead := "DeadDown"
 			if a == rueidis.VerifSharedDeadID {
@@ -609,28 +647,29 @@ func translate(evs []rueidis.VerifEvent, bornBad map[int]bool) *translator {
 				}
 			}
 			t.curLabel = fmt.Sprintf("(Store %s)", wireTerm(a, dead))
+			t.curK, t.curFlag = [3]int{8, 0, int(wireCode(wireTerm(a, dead)))}, false
 			t.curGot = ""
 			t.awaitSt = true
 		case evStoreSkip:
-			t.emit("(Store CtxDead)", nil, "")
+			t.emit(8, 0, 3, false, "(Store CtxDead)", nil, "")
 		case evSigPre:
 			t.credits++
 		case evCloseCS:
-			t.emit("(CloseCS false)", &a, "")
-			t.emit("CloseBcast", nil, "")
+			t.emit(10, 0, 0, false, "(CloseCS false)", &a, "")
+			t.emit(11, 0, 0, false, "CloseBcast", nil, "")
 			t.wakeAll()
 		case evIdleCleanup:
-			t.emit("IdleCleanup", &a, "")
+			t.emit(12, 0, 0, false, "IdleCleanup", &a, "")
 		case evCtxBcast:
-			t.emit(fmt.Sprintf("(Bcast %d)", a), nil, "")
+			t.emit(7, a, 0, false, fmt.Sprintf("(Bcast %d)", a), nil, "")
 			t.wakeAll()
 		case hvCtxCancel, hvCtxCancelYield:
-			t.emit(fmt.Sprintf("(CtxCancel %d)", a), nil, "")
+			t.emit(6, a, 0, false, fmt.Sprintf("(CtxCancel %d)", a), nil, "")
 			t.cancels++
 		case hvWBreak, hvWBreakHeld:
-			t.emit(fmt.Sprintf("(WBreak %d)", a), nil, "")
+			t.emit(13, 0, a+1, false, fmt.Sprintf("(WBreak %d)", a), nil, "")
 		case hvWExpire:
-			t.emit(fmt.Sprintf("(WExpire %d)", a), nil, "")
+			t.emit(14, 0, a+1, false, fmt.Sprintf("(WExpire %d)", a), nil, "")
 		default:
 			t.err = fmt.Sprintf("unknown event kind %d", e.Kind)
 			return t
@@ -638,7 +677,7 @@ func translate(evs []rueidis.VerifEvent, bornBad map[int]bool) *translator {
 	}
 	t.flush()
 	for ; t.credits > 0; t.credits-- {
-		t.emit("(Signal None)", nil, "")
+		t.emit(9, 0, 0, false, "(Signal None)", nil, "")
 	}
 	return t
 }
@@ -719,7 +758,7 @@ func run(ci any) (res obs.Result) {
 	sort.Strings(ks)
 	res.Obs = map[string]any{"events": len(evs), "labels": strings.Join(ks, " "), "size": size, "idle": idle, "down": down, "max_live": rn.maxLive, "stuck": stuck}
 	res.Nontrivial = tr.parks > 0 || tr.cancels > 0 || down
-	res.Sig = strings.Join(tr.out, ";")
+	res.Sig = fmt.Sprintf("%x", sha1.Sum([]byte(strings.Join(tr.out, ";"))))
 	if tr.err != "" {
 		res.Oracle += " | trace: " + tr.err
 		return res
@@ -731,8 +770,17 @@ func run(ci any) (res obs.Result) {
 	for i, id := range idle {
 		ridle[len(idle)-1-i] = fmt.Sprint(id)
 	}
-	res.Coq = fmt.Sprintf("(PoolTrace %s %d%%nat %s [%s] %s [%s]%%nat %s)", obs.Z(int64(c.Cap)), c.Min, obs.Bool(c.CleanupUs > 0),
-		strings.Join(tr.out, "; "), obs.Z(int64(size)), strings.Join(ridle, "; "), obs.Bool(down))
+	ds := make([]string, len(tr.digits))
+	for i, d := range tr.digits {
+		ds[i] = fmt.Sprint(d)
+	}
+	body := strings.Join(tr.out, "; ")
+	if len(body) > 6000 {
+		body = body[:6000] + " ..."
+	}
+	res.Obs.(map[string]any)["trace"] = body // readable Pool.tstep terms; the model gets the packed numbers
+	res.Coq = fmt.Sprintf("(PoolEnc %s %d%%nat %s [%s]%%N %s [%s]%%nat %s)", obs.Z(int64(c.Cap)), c.Min, obs.Bool(c.CleanupUs > 0),
+		strings.Join(ds, ";"), obs.Z(int64(size)), strings.Join(ridle, "; "), obs.Bool(down))
 	return res
 }
 
